@@ -12,7 +12,8 @@ use serde_json::json;
 use std::collections::BTreeSet;
 use std::net::{IpAddr, SocketAddr};
 
-pub const HOSTS17: [&str; 2] = ["Printer-One.local.", "nas.local."];
+// (the capital outside ASCII keeps its spelling in every letter-case variant that is generated)
+pub const HOSTS17: [&str; 2] = ["Printer-\u{c9}ne.local.", "nas.local."];
 
 #[derive(Clone, Debug, Serialize, Deserialize)]
 pub enum Op {
